@@ -30,11 +30,12 @@ DICT_DEVS = ["RuleDictReverseSort", "RuleDictOuterOverwrites"]
 
 
 def _mc(rep, max_objs, max_refs, max_postpone):
-    env = dict(VT_DEV="", VT_FAMILY="c34", VT_MAXOBJS=max_objs, VT_MAXFILES=2, VT_MAXREFS=max_refs,
-               VT_MAXPOSTPONE=max_postpone)
+    """(M) over the scenario universe; the same run hands the universe out for the replay."""
+    env = D.mc_env("c34", max_objs, 2, max_refs, max_postpone, emit=True)
     r = tlc.model_check("MC_LoaderProc", cfg="MC_LoaderProc_C34.cfg", env=env, timeout=3000)
     tlc.require_ok(r, "MC_LoaderProc_C34")
     rep.add_mc("MC_LoaderProc_C34", r, INVS)
+    return r.results("SCEN")
 
 
 def _subsets(names):
@@ -129,9 +130,7 @@ def run(rep):
         "entries are compared as (start, end, definition file base name, definition span); the name field is not judged",
         "no object processors are registered in this check",
     ]
-    _mc(rep, 4, 2, 2) if quick else _mc(rep, 4, 3, 2)
-    r, scns = D.emit_family(tlc, "c34", 4, 2, 2 if quick else 3, 2)
-    rep.add_mc("MC_LoaderProc_Emit[c34]", r, ["(scenario emission)"])
+    scns = _mc(rep, 4, 2, 1) if quick else _mc(rep, 4, 3, 2)
     scns = [s for s in scns if len(s["objs"]) >= 2]
     total = len(scns)
     if quick and len(scns) > 900:
